@@ -899,6 +899,8 @@ where
     #[cfg(any(test, feature = "slow_assertions"))]
     #[track_caller]
     fn assert_invariant(entries: &C::MapImpl<K, V>) {
+        #[cfg(feature = "verif_hooks")]
+        let _quiet = crate::verif_hooks::Quiet::enter();
         for (_key, entry) in entries.iter() {
             if entry.num_replicas() == 0 {
                 let Ok(guard) = PrimaryArc::clone(entry).try_lock_owned() else {
